@@ -892,3 +892,88 @@ Qed.
 Example position_matters :
   parse option_table [[112]; [45; 111]; [45; 113]] <> parse option_table [[112]; [45; 111]; [45; 45; 113; 117; 105; 101; 116]].
 Proof. vm_compute. discriminate. Qed.
+
+(* ---------- flags exempt from all / none (AddFlagVarNoAll, e.g. -Werror) ---------- *)
+
+(* "all" / "none" leave an exempt flag alone *)
+Lemma set_all_exempt fl bs v j f :
+  nth_error fl j = Some f -> gf_all f = false -> nth_error (set_all fl bs v) j = nth_error bs j.
+Proof.
+  revert bs j. induction fl as [|f0 fl IH]; intros bs j Hn Ha; [destruct j; discriminate|].
+  destruct bs as [|b bs]; [reflexivity|]. cbn [set_all].
+  destruct j as [|j]; cbn [nth_error] in *.
+  - inversion Hn; subst. rewrite Ha. reflexivity.
+  - apply IH; assumption.
+Qed.
+
+(* every flag that the word x could address (as "x" or "no-x") is exempt *)
+Definition addresses_exempt_only (fl : list gflag) (x : str) : Prop :=
+  forall f, In f fl -> (x = gf_name f \/ x = s_no_ ++ gf_name f) -> gf_all f = false.
+
+Lemma find_flag_set_all fl bs v x :
+  addresses_exempt_only fl x ->
+  find_flag fl (set_all fl bs v) x = option_map (fun r => set_all fl r v) (find_flag fl bs x).
+Proof.
+  revert bs. induction fl as [|f fl IH]; intros bs H; [reflexivity|].
+  destruct bs as [|b bs]; [reflexivity|]. cbn [set_all find_flag].
+  destruct (str_eqb x (gf_name f)) eqn:E1.
+  - apply str_eqb_spec in E1. rewrite (H f (or_introl eq_refl) (or_introl E1)). reflexivity.
+  - destruct (str_eqb x (s_no_ ++ gf_name f)) eqn:E2.
+    + apply str_eqb_spec in E2. rewrite (H f (or_introl eq_refl) (or_intror E2)). reflexivity.
+    + rewrite IH by (intros f' Hin; apply H; right; assumption).
+      destruct (find_flag fl bs x); reflexivity.
+Qed.
+
+(* a known flag word that addresses only exempt flags commutes with all / none *)
+Theorem exempt_flag_commutes fl bs x a bs1 :
+  (a = s_all \/ a = s_none) -> str_eqb x s_none || str_eqb x s_all = false ->
+  addresses_exempt_only fl x -> find_flag fl bs x = Some bs1 ->
+  group_parse fl bs [x; a] = group_parse fl bs [a; x].
+Proof.
+  intros Ha Hx He Hf. cbn [group_parse]. unfold parse_opt at 1. rewrite Hx, Hf.
+  assert (parse_opt fl bs1 a = Some (set_all fl bs1 (str_eqb a s_all)) /\
+          parse_opt fl bs a = Some (set_all fl bs (str_eqb a s_all))) as [-> ->]
+    by (destruct Ha as [-> | ->]; split; reflexivity).
+  unfold parse_opt. rewrite Hx, (find_flag_set_all _ _ _ _ He), Hf. reflexivity.
+Qed.
+
+Lemma split_on_none c s : existsb (N.eqb c) s = false -> split_on c s = [s].
+Proof.
+  induction s as [|x s IH]; cbn [existsb split_on]; intro H; [reflexivity|].
+  apply orb_false_iff in H as [H1 H2]. rewrite N.eqb_sym in H1. rewrite H1, (IH H2). reflexivity.
+Qed.
+
+(* -Wx,all is -Wall,x (x an exempt flag, also with none): the final settings do not
+   depend on the order; by group_comma_eq_repeat the same holds for -Wx -Wall / -Wall -Wx *)
+Theorem exempt_flag_order t :
+  wf_table t -> forall i o x a, nth_error t i = Some o -> o_kind o = KGroup ->
+  (a = s_all \/ a = s_none) -> str_eqb x s_none || str_eqb x s_all = false -> x <> [] ->
+  existsb (N.eqb 44) x = false -> addresses_exempt_only (o_flags o) x ->
+  forall st rem post bs bs1, nth_error st i = Some (VGroup bs) -> find_flag (o_flags o) bs x = Some bs1 ->
+    parse_args t st rem ((45 :: o_short o :: x) :: (45 :: o_short o :: a) :: post) =
+    parse_args t st rem ((45 :: o_short o :: a) :: (45 :: o_short o :: x) :: post).
+Proof.
+  intros Hwf i o x a Hn Hk Ha Hx Hxn Hxc He st rem post bs bs1 Hst Hf.
+  assert (a <> []) as Han by (destruct Ha as [-> | ->]; discriminate).
+  assert (existsb (N.eqb 44) a = false) as Hac by (destruct Ha as [-> | ->]; reflexivity).
+  rewrite <- (group_comma_eq_repeat_short t Hwf i o x a Hn Hk Hxn Han).
+  rewrite <- (group_comma_eq_repeat_short t Hwf i o a x Hn Hk Han Hxn).
+  destruct (wf_nth _ _ _ Hwf Hn) as (H1 & H2 & H3 & H4).
+  rewrite !parse_args_cons by auto using is_dashdash_short.
+  rewrite !dispatch_short by assumption.
+  rewrite (short_step t i o st (x ++ 44 :: a) _ Hwf Hn), (short_step t i o st (a ++ 44 :: x) _ Hwf Hn), Hk.
+  unfold short_arg_action. rewrite Hk, Hst.
+  assert (nonempty (x ++ 44 :: a) = true) as -> by (destruct x; [congruence|reflexivity]).
+  assert (nonempty (a ++ 44 :: x) = true) as -> by (destruct a; [congruence|reflexivity]).
+  unfold group_step. rewrite !split_on_app, (split_on_none _ _ Hxc), (split_on_none _ _ Hac).
+  change ([x] ++ [a]) with [x; a]. change ([a] ++ [x]) with [a; x].
+  rewrite (exempt_flag_commutes _ _ _ _ _ Ha Hx He Hf). reflexivity.
+Qed.
+
+(* pkglint's own table: -Werror -Wall and -Wall -Werror end with the same settings, error on *)
+Example werror_wall_order :
+  parse option_table [[112]; [45; 87; 101; 114; 114; 111; 114]; [45; 87; 97; 108; 108]] =
+  parse option_table [[112]; [45; 87; 97; 108; 108]; [45; 87; 101; 114; 114; 111; 114]] /\
+  (exists st rem, parse option_table [[112]; [45; 87; 101; 114; 114; 111; 114]; [45; 87; 97; 108; 108]] = ROk st rem /\
+     last st (VBool false) = VGroup [true; true; true; true]).
+Proof. split; [vm_compute; reflexivity|]. eexists. eexists. split; vm_compute; reflexivity. Qed.
